@@ -363,7 +363,9 @@ def run(ctx):
         'protocol line carries what the library says about the strings it mentions (C09 owns base58)',
         'decimal arithmetic runs in Python\'s default context (prec=28, ROUND_HALF_EVEN), which the mirror follows',
         'only public keys are sent for `key` (`is_public_key` also passes secret-key texts, on which KeyType.__lt__ raises KeyError)',
-        'lambda and ticket are outside the model; try_unpack=False',
+        'lambda and ticket are outside the model',
+        'try_unpack=True: the base58 texts `blind_unpack` produces and the object of readable PACKed content are parameters of the model (each '
+        'protocol line carries the library\'s own answers); the decision which reading applies is mirrored',
         'ContractEntrypoint.encode/decode is checked on the real code only (composition with C13); the Lean theorem covers ContractData',
     ]
     from pytezos.michelson.types.core import unit as unit_cls
@@ -381,6 +383,7 @@ def run(ctx):
     if get_originated_address(0) != ORIGINATED0:
         ctx.mismatch('originated-address', 'get_originated_address(0)', get_originated_address(0), ORIGINATED0)
     leaf_stream(ctx)
+    unpack_stream(ctx)
     cases = gen_cases(ctx)
     lines, plan = [], []
     node_seen = {}
@@ -903,3 +906,180 @@ def leaf_stream(ctx):
             ok, py = real.to_py(inst)
             if not ok or real.of_py(py) != want:
                 ctx.violation(f'leaf-form-roundtrip[{key}]', f'{G.ty_str(t)}: {obj!r} -> value -> {py!r} does not convert back to the value', {'type': G.ty_expr(t), 'object': repr(obj)})
+
+
+# ---------------------------------------------------------------------------------------------- try_unpack=True
+def unpack_facts(data):
+    """what the library says about one bytes value, for the `b58` / `unpackMich` parameters of the model: every base58 text
+    `blind_unpack` could ask for, and the object of the PACKed content if `unforge_micheline` reads it"""
+    from pytezos.crypto.encoding import base58_encode
+    from pytezos.michelson.forge import unforge_micheline
+    from pytezos.michelson.micheline import micheline_value_to_python_object
+    cands = [(b'Net', data), (b'sig', data), (b'BLsig', data)]
+    for pre in (b'tz1', b'tz2', b'tz3', b'tz4'):
+        cands += [(pre, data[1:]), (pre, data[2:])]
+    for pre in (b'KT1', b'txr1', b'sr1'):
+        cands.append((pre, data[1:-1]))
+    for pre in (b'edpk', b'sppk', b'p2pk', b'BLpk'):
+        cands.append((pre, data[1:]))
+    out = []
+    for pre, pl in cands:
+        try:
+            tx = base58_encode(pl, pre).decode()
+        except ValueError:
+            continue
+        out.append(f"e:{pre.hex()}:{pl.hex() or '-'}:{tx.encode().hex()}")
+    if data[:1] == b'\x05':
+        try:
+            o = micheline_value_to_python_object(unforge_micheline(data[1:]))
+            out.append('u:' + (data[1:].hex() or '-') + ':' + '~'.join(G.py_toks(o)))
+        except Exception:
+            pass          # not readable: blind_unpack has to go on to the next reading
+    return out
+
+
+PACKED = [   # hand-made PACKed data and what it shows as
+    (bytes.fromhex('050100000003616263'), 'abc'),
+    (bytes.fromhex('05002a'), 42),
+    (bytes.fromhex('050041'), -1),
+    (bytes.fromhex('0507070001000200'[:14]), (1, 2)),
+    (bytes.fromhex('05070701000000016100ff01'), ('a', -127)),
+    (bytes.fromhex('050a00000001ff'), b'\xff'),
+    (bytes.fromhex('050a0000000161'), 'a'),
+    (bytes.fromhex('05030b'), 'Unit'),
+    (bytes.fromhex('050200000000'), '{}'),
+]
+
+
+def rand_bytes_for_unpack(rng):
+    k = rng.randrange(8)
+    if k == 0:
+        return rng.choice(PACKED)[0]
+    if k == 1:     # text
+        return rng.choice(['', 'a', 'hello', 'é', '\x05x', 'tz1', '\x00', 'ab\ncd', '€uro', '\U0001f600']).encode()
+    if k == 2:     # broken UTF-8 / surrogates / overlong
+        return rng.choice([b'\xff', b'\xc3', b'\xc0\x80', b'\xed\xa0\x80', b'\xf4\x90\x80\x80', b'\xe2\x82', b'a\x80', b'\xf0\x9f\x98'])
+    n = rng.choice([0, 1, 2, 3, 4, 5, 6, 8, 20, 21, 22, 23, 30, 32, 33, 34, 48, 49, 50, 63, 64, 65, 95, 96, 97])
+    b = bytes(rng.randrange(256) if rng.random() < 0.6 else rng.choice([0, 1, 2, 3, 5, 7, 10, 97, 255]) for _ in range(n))
+    if k == 3 and n:           # a forged address / key shape
+        b = bytes([rng.choice([0, 0, 1, 2, 3, 4])]) + b[1:]
+        if rng.random() < 0.5:
+            b = b[:-1] + b'\x00'
+        if rng.random() < 0.4 and n > 1:
+            b = b[:1] + bytes([rng.choice([0, 1, 2, 3, 4])]) + b[2:]
+    if k == 4:                 # looks PACKed
+        b = b'\x05' + b
+    if k == 5:                 # PACKed data cut short / with a tail
+        p_ = rng.choice(PACKED)[0]
+        b = p_[:rng.randrange(1, len(p_))] if rng.random() < 0.5 else p_ + bytes([rng.randrange(256)])
+    return b
+
+
+def bytes_leaves(t, v):
+    if t[0] == 's':
+        return [v[1]] if t[2] == 'bytes' else []
+    if t[0] == 'c' or v[0] in 'NB':
+        return []
+    if t[0] == 'p':
+        return bytes_leaves(t[2], v[1]) + bytes_leaves(t[3], v[2])
+    if t[0] == 'o':
+        return bytes_leaves(t[2] if v[0] == 'L' else t[3], v[1])
+    if t[0] == 'O':
+        return bytes_leaves(t[2], v[1])
+    if t[0] in 'lS':
+        return [b for x in v[1] for b in bytes_leaves(t[2], x)]
+    return [b for k_, x in v[1] for b in bytes_leaves(t[2], k_) + bytes_leaves(t[3], x)]
+
+
+def unpack_all(o, unpack):
+    """the object with every bytes object in it (dict keys too) replaced by what `unpack` shows it as"""
+    if isinstance(o, bytes):
+        return unpack(o)
+    if isinstance(o, tuple):
+        return tuple(unpack_all(x, unpack) for x in o)
+    if isinstance(o, list):
+        return [unpack_all(x, unpack) for x in o]
+    if isinstance(o, dict):
+        return {unpack_all(k, unpack): unpack_all(x, unpack) for k, x in o.items()}
+    return o
+
+
+def unpack_stream(ctx):
+    """`blind_unpack` on bytes of every interesting length / tag (the real function against the mirror `blindUnpack`; it must
+    return — the value itself when nothing reads it — and show hand-made PACKed data as its content), and
+    `to_python_object(try_unpack=True)` of composite values with bytes leaves against the mirror"""
+    from pytezos.michelson.micheline import blind_unpack
+    rng = ctx.rng
+    n = 600 if ctx.tier == 'quick' else 20000
+    datas = [d for d, _ in PACKED] + [b'\x05', b'\x05\x03\xaf', b'', b'\x05\x00', b'\x05\x02\x00\x00\x00\x05', b'\x05\x01\x00\x00\x00\x01\xff']
+    while len(datas) < n:
+        datas.append(rand_bytes_for_unpack(rng))
+    lines = ['unpack ' + (d.hex() or '-') + ' | ' + ' '.join(unpack_facts(d)) for d in datas]
+    # composite values
+    comp = []
+    m = 150 if ctx.tier == 'quick' else 5000
+    tries = 0
+    while len(comp) < m and tries < 40 * m:
+        tries += 1
+        t = G.rand_type(rng, rng.choice([1, 2, 2, 3]), p_field=0.5)
+        if not G.inhabited(t) or not any(x == ('s', x[1], 'bytes') for x in G.subterms(t) if x[0] == 's'):
+            continue
+        v = G.rand_value(rng, t)
+        # put interesting bytes into the leaves
+        leaves = bytes_leaves(t, v)
+        if not leaves:
+            continue
+        real = Real(t)
+        if real.err:
+            continue
+        inst = real.value(v)
+        if isinstance(inst, str):
+            continue
+        facts = []
+        for b in leaves:
+            facts += unpack_facts(b)
+        comp.append((t, v, real, inst, len(lines)))
+        ln = with_facts('topyu ' + ' '.join(G.ty_toks(t)) + ' ' + ' '.join(G.val_toks(v)), t)
+        lines.append(ln + (' ' if ' | ' in ln else ' | ') + ' '.join(dict.fromkeys(facts)))
+    model = ctx.model(lines)
+    if model and model[0] == 'unrecognised-source':
+        model = None
+    want = dict(PACKED)
+    for i, d in enumerate(datas):
+        desc = {'blind_unpack': d.hex()}
+        ctx.case(desc, nontrivial=True)
+        try:
+            r = blind_unpack(d)
+            got = ' '.join(G.py_toks(r))
+        except Exception as e:
+            r, got = e, 'raises:' + type(e).__name__
+        ctx.count('blind_unpack', type(r).__name__ if not isinstance(r, Exception) else 'raises')
+        if model is not None and model[i] != got:
+            ctx.mismatch('blind-unpack', desc, got, model[i])
+        if isinstance(r, Exception):
+            ctx.violation(f'blind-unpack-raises[0x{d.hex()}]', f'bytes 0x{d.hex()}: to_python_object(try_unpack=True) raises {type(r).__name__} '
+                          '(expected the bytes themselves when they are not readable as PACKed data)', {'type': {'prim': 'bytes'}, 'value': {'bytes': d.hex()}, 'try_unpack': True})
+        elif isinstance(r, bytes) and r != d and d[:1] != b'\x05':
+            ctx.violation(f'blind-unpack-other-bytes[0x{d.hex()}]', f'bytes 0x{d.hex()} shown as other bytes 0x{r.hex()}', {'value': {'bytes': d.hex()}})
+        elif d in want and r != want[d]:
+            ctx.violation(f'blind-unpack-content[0x{d.hex()}]', f'PACKed data 0x{d.hex()} shown as {r!r} (expected {want[d]!r})', {'value': {'bytes': d.hex()}})
+    for t, v, real, inst, idx in comp:
+        desc = {'type': G.ty_str(t), 'value': G.val_str(v), 'try_unpack': True}
+        ctx.case(desc, nontrivial=True)
+        ctx.count('try_unpack', 'composite')
+        try:
+            py = inst.to_python_object(try_unpack=True, lazy_diff=None)
+            got = ' '.join(G.py_toks(py))
+            # try_unpack only changes how the bytes leaves are shown (bls12_381 points are bytes objects that stay as they are)
+            if not any(x[0] == 's' and x[2] in ('bls12_381_g1', 'bls12_381_g2') for x in G.subterms(t)):
+                plain = inst.to_python_object(lazy_diff=None)
+                want_py = unpack_all(plain, blind_unpack)
+                if G.py_toks(want_py) != G.py_toks(py):
+                    ctx.violation(f'try-unpack-differs[{G.ty_str(t)} | {G.val_str(v)}]', f'{G.ty_str(t)}, value {G.val_str(v)}: to_python_object(try_unpack=True) = {py!r}, '
+                                  f'expected {want_py!r} (the plain object with every bytes leaf shown unpacked)', {'type': G.ty_expr(t), 'value': G.val_expr(t, v), 'try_unpack': True})
+        except Exception as e:
+            got = classify(e)
+            ctx.violation(f'try-unpack-raises[{G.ty_str(t)} | {G.val_str(v)}]', f'{G.ty_str(t)}, value {G.val_str(v)}: to_python_object(try_unpack=True) raises '
+                          f'{type(e).__name__}: {str(e)[:120]}', {'type': G.ty_expr(t), 'value': G.val_expr(t, v), 'try_unpack': True})
+        if model is not None and model[idx] != got:
+            ctx.mismatch('to-python-object-try-unpack', desc, got, model[idx])
